@@ -34,6 +34,12 @@ fn tokens() -> Vec<String> {
     ]
 }
 
+/// the largest values that still parse as u64 / i64 (a time or an operation id far in the future): tried as
+/// the single deviation of every template position and as the only argument of every command word
+fn far_future_tokens() -> Vec<String> {
+    vec!["18446744073709551615".into(), "9223372036854775807".into()]
+}
+
 const TEMPLATES: &[&str] = &[
     "auth u p",
     "use-db t tok",
@@ -89,7 +95,8 @@ const TEMPLATES: &[&str] = &[
 /// core alphabet (second-step letters of the quick tier): templates with at most one deviation
 /// and every command word with at most one argument
 pub fn core_alphabet() -> Vec<String> {
-    let t = tokens();
+    let mut t = tokens();
+    t.extend(far_future_tokens());
     let mut raw: Vec<String> = vec![];
     let mut words = command_words();
     words.push("frobnicate".into());
@@ -163,6 +170,19 @@ pub fn alphabet(quick: bool) -> Vec<String> {
         for i in 1..toks.len() {
             raw.push(toks[..i].join(" "));
             raw.push(format!("{} ", toks[..i].join(" ")));
+        }
+    }
+    for a in far_future_tokens() {
+        for w in words.iter() {
+            raw.push(format!("{} {}", w, a));
+        }
+        for tpl in TEMPLATES {
+            let toks: Vec<&str> = tpl.split(' ').collect();
+            for i in 1..toks.len() {
+                let mut x: Vec<String> = toks.iter().map(|s| s.to_string()).collect();
+                x[i] = a.clone();
+                raw.push(x.join(" "));
+            }
         }
     }
     raw.push("".into());
